@@ -107,7 +107,7 @@ impl TypedProp for C17 {
     fn info(&self) -> PropInfo {
         PropInfo {
             level: "exploration",
-            rule: "exhaustive part: for each tap-dance config (lazy/eager x T {5,30} x list length 1-4 x action kinds keys / layer-while-held / tap-hold inside x rapid-event-delay {0,5}) every toggle schedule of 1..N events over the tap-dance key and one other key with gaps {0,1,T-1,T,T+1}; random part: longer histories (up to 40 events) on random configs of the same family. Oracle: reference model with the documented eviction rule (only the counted taps are folded into the chosen action; every other press is accounted for), full timestamped equality. Non-trivial: >= 2 presses of the tap-dance key, or a gap within +-1 of T. Distinct: hash of (config, history).",
+            rule: "exhaustive part: for each tap-dance config (lazy/eager x T {5,30} x list length 1-4 x action kinds keys / layer-while-held / tap-hold inside x rapid-event-delay {0,5}) every toggle schedule of 1..N events over the tap-dance key and one other key with gaps {0,1,T-1,T,T+1}; random part: longer histories (up to 40 events) on random configs of the same family, the other key being plain (2 in 3), a tap-dance of its own (lazy or eager), or a tap-hold with concurrent-tap-hold on or off. Oracle: reference model with the documented eviction rule (only the counted taps are folded into the chosen action; every other press is accounted for), full timestamped equality. Non-trivial: >= 2 presses of the tap-dance key, or a gap within +-1 of T. Distinct: hash of (config, history).",
             assumptions: vec!["fewer than 32 events pending".into(), "pinned conventions of DESIGN.md Appendix A.4".into()],
             extra: BTreeMap::new(),
         }
@@ -122,7 +122,7 @@ impl TypedProp for C17 {
             n_cases: t.ends.last().copied().unwrap_or(0) + random,
             exhaustive: false,
             distinct_by_construction: false,
-            required_classes: vec!["exhaustive", "random", "lazy", "eager", "taps>=2", "taps>=len", "interrupted", "boundary-gap"],
+            required_classes: vec!["exhaustive", "random", "lazy", "eager", "taps>=2", "taps>=len", "interrupted", "boundary-gap", "other-key-is-a-tap-dance", "other-key-is-a-tap-hold", "other-key-is-a-tap-hold:concurrent-tap-hold"],
             hang_secs: 60,
         }
     }
@@ -143,9 +143,23 @@ impl TypedProp for C17 {
         }
     }
     fn strategy(&self, _tier: Tier, _key: u32) -> BoxedStrategy<MCase> {
-        (any::<bool>(), prop::sample::select(vec![5u16, 8, 30]), 1usize..=4, 0usize..3, prop::sample::select(vec![0u16, 3, 5]))
-            .prop_flat_map(|(eager, t, len, kind, p)| {
-                let cfg = td_cfg(eager, t, len, kind, p);
+        (any::<bool>(), prop::sample::select(vec![5u16, 8, 30]), 1usize..=4, 0usize..3, prop::sample::select(vec![0u16, 3, 5]), (0u8..6, any::<bool>(), any::<bool>()))
+            .prop_flat_map(|(eager, t, len, kind, p, (other, other_eager, conc))| {
+                let mut cfg = td_cfg(eager, t, len, kind, p);
+                // the other key: mostly plain; a second tap-dance of its own; a tap-hold (the
+                // dance key's presses then wait in the queue behind its decision)
+                match other {
+                    4 => {
+                        cfg.layers[0][1] = Act::TapDance(Box::new(TapDance { eager: other_eager, timeout: t, acts: vec![k("q"), k("r"), k("s")] }));
+                        cfg.layers[1][1] = Act::Trans;
+                    }
+                    5 => {
+                        cfg.layers[0][1] = th_act(ThVariant::Plain, false, t + 3, 0, "q", "lalt");
+                        cfg.layers[1][1] = Act::Trans;
+                        cfg.concurrent_tap_hold = conc;
+                    }
+                    _ => {}
+                }
                 let gaps = vec![0, 1, 1, 1, 2, 3, t as u32 - 1, t as u32, t as u32 + 1];
                 // weight the dance key 3:1
                 let keys = vec![kc("a"), kc("a"), kc("a"), kc("b")];
@@ -210,6 +224,11 @@ impl TypedProp for C17 {
         }
         v.classes.push(if case.hist.len() <= 2 * 7 + 4 { "exhaustive" } else { "random" });
         v.classes.push(if td.eager { "eager" } else { "lazy" });
+        match &case.cfg.layers[0][1] {
+            Act::TapDance(_) => v.classes.push("other-key-is-a-tap-dance"),
+            Act::TapHold(_) => v.classes.push(if case.cfg.concurrent_tap_hold { "other-key-is-a-tap-hold:concurrent-tap-hold" } else { "other-key-is-a-tap-hold" }),
+            _ => {}
+        }
         if taps >= 2 {
             v.classes.push("taps>=2");
         }
